@@ -616,6 +616,12 @@ class Interp:
                 if is_const(p[3]) and isinstance(p[3][1], str) and isinstance(p[2][1], str):
                     r = p[2][1] in p[3][1]
                     return const(r if p[1] == "In" else not r)
+            if p[1] in ("In", "NotIn") and is_const(p[2]):
+                o = self.obj(p[3])
+                if isinstance(o, HDict) and not getattr(o, "dirty", False) and all(e[0] != "**" and is_const(e[0]) for e in o.entries):
+                    # membership of a constant in a literal table nobody wrote to
+                    r = any(e[0] == p[2] for e in o.entries)
+                    return const(r if p[1] == "In" else not r)
             if p[1] in ("In", "NotIn") and not is_const(p[2]):
                 o = self.obj(p[3])
                 if isinstance(o, HDict) and o.origin[2] == 0 and o.entries and all(e[0] != "**" and is_const(e[0]) for e in o.entries):
@@ -711,7 +717,23 @@ class Interp:
         return ("star", self.ev(st, n.value, tree))
 
     def ev_Lambda(self, st, n, tree):
-        return ("lambda", ast.unparse(n), id(n))
+        act = self.stack[-1] if self.stack else None
+        if act is None or act.fi is None:
+            return ("lambda", ast.unparse(n), id(n))
+        # a lambda is a closure over the current frame: ``def <lambda>(args): return body``
+        fd = getattr(n, "_as_def", None)
+        if fd is None:
+            fd = ast.FunctionDef(name="<lambda>", args=n.args, body=[ast.Return(value=n.body)], decorator_list=[], returns=None, type_comment=None)
+            try:
+                fd.type_params = []
+            except Exception:
+                pass
+            ast.copy_location(fd, n)
+            ast.copy_location(fd.body[0], n)
+            n._as_def = fd
+        cid = len(self.closures) + 1
+        self.closures[cid] = (FuncInfo(act.fi.module, None, fd), dict(st.env))
+        return ("lambda", ast.unparse(n), id(n), cid)
 
     def ev_NamedExpr(self, st, n, tree):
         v = self.ev(st, n.value, tree)
@@ -871,6 +893,9 @@ class Interp:
         if k == "closure":
             fi, cenv = self.closures[f[1]]
             return self.call_function(st, fi, args, kwargs, n, tree, closure_env=cenv)
+        if k == "lambda" and len(f) > 3:
+            fi, cenv = self.closures[f[3]]
+            return self.call_function(st, fi, args, kwargs, n, tree, closure_env=cenv)
         if k == "propobj":
             return ("opaque", "property object called")
         if k == "builtin":
@@ -892,6 +917,9 @@ class Interp:
             args = self.force_args(st, args, tree, n)
             o = self.obj(recv)
             if name in self.MUTATORS:
+                ob_ = self.obj(recv)
+                if ob_ is not None:
+                    ob_.dirty = True
                 tree.append(("mutate", recv, name, tuple(args), line))
                 if name in ("pop", "popleft", "popitem", "setdefault"):
                     return ("call", "." + name, (recv,) + tuple(args), ())
@@ -1354,6 +1382,9 @@ class Interp:
         elif isinstance(tgt, ast.Subscript):
             base = self.ev(st, tgt.value, tree)
             key = self.ev(st, tgt.slice, tree) if not isinstance(tgt.slice, ast.Slice) else ("opaque", ast.unparse(tgt.slice))
+            ob_ = self.obj(base)
+            if ob_ is not None:
+                ob_.dirty = True
             tree.append(("setitem", base, key, v, line))
         elif isinstance(tgt, (ast.Tuple, ast.List)):
             if v[0] == "tuple" and len(v[1]) == len(tgt.elts):
